@@ -16,6 +16,7 @@ import (
 	"github.com/iotaledger/hive.go/runtime/event"
 	"github.com/iotaledger/hive.go/runtime/promise"
 	"github.com/iotaledger/hive.go/runtime/valuenotifier"
+	"github.com/iotaledger/hive.go/runtime/workerpool"
 
 	"verifharness/core"
 	"verifharness/sched"
@@ -91,6 +92,9 @@ func raceMain(args []string) int {
 	rd := rand.New(rand.NewSource(*seed))
 	n := 0
 	n += evmax(enc, rd, *rounds)
+	for i := 0; i < 12; i++ {
+		n += poolQueue(enc, rd, i)
+	}
 	for i := 0; i < *traces; i++ {
 		if i%4 == 3 {
 			old := runtime.GOMAXPROCS(2)
@@ -106,6 +110,79 @@ func raceMain(args []string) int {
 	}
 	fmt.Printf("{\"events\": %d}\n", n)
 	return 0
+}
+
+// ---------------------------------------------------------------------------------------------------------------
+// poolQueue (forced schedule, kind "poolq"): hooks run on a one-worker pool; the first call is held at a gate, so the calls
+// of the following Triggers wait in the pool's queue; then hooks are unhooked (explicitly, or by a Trigger that uses up a
+// max trigger count); the gate opens and the pool drains.
+func poolQueue(enc *json.Encoder, rd *rand.Rand, variant int) int {
+	lg := &rlog{}
+	pool := workerpool.New("c15q", workerpool.WithWorkerCount(1)).Start()
+	defer pool.Shutdown()
+	e := event.New1[int]()
+	gate := sched.NewGate()
+	gate.Hold("first")
+	first := true
+	type hk struct {
+		id int
+		h  *event.Hook[func(int)]
+	}
+	var hooks []hk
+	nh := 2 + rd.Intn(2)
+	for id := 1; id <= nh; id++ {
+		id := id
+		m := 0
+		if variant%3 == 1 && id == nh {
+			m = 2 // the last hook has a max trigger count of 2
+		}
+		opts := []event.Option{event.WithWorkerPool(pool)}
+		if m > 0 {
+			opts = append(opts, event.WithMaxTriggerCount(uint64(m)))
+		}
+		h := e.Hook(func(a int) {
+			lg.add(core.Ev{"op": "qcall", "h": id, "a": a})
+			if first { // (only the pool's single worker gets here)
+				first = false
+				gate.Wait("first")
+			}
+		}, opts...)
+		lg.add(core.Ev{"op": "qhook", "h": id, "m": m})
+		hooks = append(hooks, hk{id, h})
+	}
+	safely(lg, func() {
+		ntr := 2 + rd.Intn(3)
+		for a := 1; a <= ntr; a++ {
+			e.Trigger(a)
+			lg.add(core.Ev{"op": "qtrig", "a": a})
+			if a == 1 {
+				sched.QuiesceOpt(300*time.Millisecond, 2, false) // the worker is inside the first call
+			}
+			if variant%3 != 1 && a >= 2 && rd.Intn(2) == 0 {
+				k := hooks[rd.Intn(len(hooks))]
+				k.h.Unhook()
+				lg.add(core.Ev{"op": "qunhook", "h": k.id})
+			}
+		}
+		if variant%3 == 2 {
+			for _, k := range hooks {
+				k.h.Unhook()
+				lg.add(core.Ev{"op": "qunhook", "h": k.id})
+			}
+		}
+	})
+	gate.ReleaseAll()
+	done := make(chan struct{})
+	go func() { pool.PendingTasksCounter.WaitIsZero(); close(done) }()
+	hung := false
+	select {
+	case <-done:
+	case <-time.After(5 * time.Second):
+		hung = true
+	}
+	sched.QuiesceOpt(300*time.Millisecond, 2, false)
+	lg.add(core.Ev{"op": "qdrained", "hung": hung})
+	return lg.flush(enc, "poolq")
 }
 
 // ---------------------------------------------------------------------------------------------------------------
